@@ -20,7 +20,9 @@ RULE = ('one run = one simulated hand (any variant, any automation subset, comme
         'the public API to a fresh un-automated state built under a different deck order; after each record the '
         'returned record and the log prefix must equal the original, at every boundary where the original was quiescent '
         'the complete state must be equal, and at the end everything except deck order; (b) the same choices are run '
-        'twice and must give identical logs and states; (c) forks: deep copies taken at scheduler-chosen quiescent points '
+        'twice and must give identical logs and states - in half of the cases with an interfering table in between: another '
+        'hand of the same variant with other parameters (bet sizes, stacks, mode, automations, rake) is created in the same '
+        'process, played half-way and left alive while the original decisions are executed again; (c) forks: deep copies taken at scheduler-chosen quiescent points '
         '(up to 3) are advanced interleaved with the original - frozen forks must stay bit-identical, shadow forks fed '
         'the same decisions must stay equal to the original, divergent forks must not disturb anybody and must equal '
         'a sequential replay of their own log. non-trivial = history with >= 12 operations; distinct = distinct '
@@ -157,14 +159,70 @@ def twice(ch, ctx, world, cfg, run_key):
     assert cfg2 == cfg
     rk = run_key_of(ch2)
     ch2.weighted('c15.plan', (3, 2, 4))
+    other = None
+    if ch.chance('c15.interfere', 1, 2):
+        # fault "interfering table": between the two executions another hand of the SAME variant with OTHER parameters is
+        # created in this process, played half-way and left alive - state that leaks between State objects through a class
+        # attribute, a shared default or a cache keyed too coarsely makes the second execution differ from the first
+        other = interfering_table(ch, ctx, cfg, run_key)
     w2 = World(ch2, ctx2, cfg2, [], run_key=rk, commentary_num=2)
     w2.run()
+    if other is not None:
+        boot.set_run_key(other.run_key)
+        try:
+            other.run()
+        except (EngineCrash, Stuck):
+            pass
+        boot.set_run_key(run_key)
     if w2.state.operations != world.state.operations:
         raise Violation('C15.determinism', 'the same decisions and deck order gave a different operation log')
     d = diff(snapshot(world.state), snapshot(w2.state))
     if d:
         raise Violation('C15.determinism', f'the same decisions and deck order gave a different state: {[x[0] for x in d]}')
     ctx.count('run_twice')
+
+
+def interfering_table(ch, ctx, cfg, run_key):
+    from sim.config import PREDEFINED
+    c = dict(cfg)
+    if c['variant'] in PREDEFINED and ch.chance('intf.sibling', 1, 2):
+        # a sibling variant of the same family (shared base classes and mixins in games.py)
+        fam = [k for k, v in PREDEFINED.items() if v[3] == PREDEFINED[c['variant']][3] and v[2] >= c['n']
+               and (k != 'NR' or c['n'] <= 5)]
+        c['variant'] = ch.choice('intf.variant', fam)
+        if c['variant'] in ('NS', 'NR'):
+            c['sbc'] = 1
+    c['bb'] = ch.choice('intf.bb', (2, 4, 10))
+    if c['variant'] in PREDEFINED and PREDEFINED[c['variant']][1] != 'minbet':
+        c['big_mult'] = ch.choice('intf.big_mult', (1, 2, 3))
+    c['stacks'] = [ch.choice('intf.stack', (2, 5, 20, 40, 100)) for _ in range(c['n'])]
+    c['autos'] = ch.pick('intf.autos', 1 << 11)
+    c['mode'] = ('tournament', 'cash')[ch.pick('intf.mode', 2)]
+    c['ats'] = bool(ch.pick('intf.ats', 2))
+    c['antes'] = ch.choice('intf.antes', (0, 1, 2))
+    if c.get('blinds'):
+        h = c['bb'] // 2
+        c['blinds'] = [h, c['bb']]
+    if c.get('bring_in'):
+        c['bring_in'] = 1 if c['antes'] else 1
+    c['rake'] = ch.choice('intf.rake', ('none', 'pct'))
+    if c['chip'] in ('float', 'decimal') and c['rake'] != 'none':
+        c['rake'] = 'none'
+    from sim.play import Ctx
+    try:
+        w = World(ch, Ctx(), c, [], run_key=run_key + '-intf', profile='balanced')
+    except EngineCrash:
+        boot.set_run_key(run_key)
+        return None
+    ctx.fault('interfering_table')
+    try:
+        for _ in range(ch.pick('intf.steps', 25)):
+            if not w.state.status or w.step() is None:
+                break
+    except (EngineCrash, Stuck):
+        pass
+    boot.set_run_key(run_key)
+    return w
 
 
 def run_with_forks(ch, ctx, world, forks):
